@@ -182,6 +182,52 @@ pub fn run(tier: Tier) {
         ctx.add_part(part);
     }
 
+    // copies of one key: clones taken before and after the first signature, and objects decoded twice from the same
+    // bytes, must each draw their own salts (state that travels with a key object must not be duplicated with it)
+    {
+        let mut part = Part::new("key_copies", "a Falcon-512 and a Falcon-1024 key: the original, a clone taken before its first signature, a clone taken after it, a clone of that clone, and two objects decoded from the same bytes (one of them after the original has signed) sign the same message in every order of a depth-3 history on one thread and on two threads alternately: every salt is new in the whole run");
+        fn copies<V: Variant>(seed: u64) -> Vec<(String, V::Sk)> {
+            let k = crate::api::key::<V>(seed).0;
+            let early = k.clone();
+            let bytes = V::sk_to_bytes(&k);
+            let d1 = V::sk_from_bytes(&bytes).unwrap();
+            let _ = V::sign(b"warm up", &k);
+            let late = k.clone();
+            let _ = V::sign(b"warm up", &late);
+            let late2 = late.clone();
+            let d2 = V::sk_from_bytes(&bytes).unwrap();
+            vec![("original".into(), k), ("clone before first use".into(), early), ("clone after first use".into(), late), ("clone of the used clone".into(), late2), ("decoded (before)".into(), d1), ("decoded (after)".into(), d2)]
+        }
+        fn run_copies<V: Variant>(ctx: &mut Ctx, part: &mut Part, seen: &mut BTreeMap<Vec<u8>, String>, byte_values: &mut [BTreeSet<u8>], seed: u64, workers: &[Worker; 2]) {
+            let objs = Arc::new(copies::<V>(seed));
+            for h in sequences(objs.len(), 3) {
+                part.states += 1;
+                for (step, &o) in h.iter().enumerate() {
+                    let ob = objs.clone();
+                    let r = workers[step % 2].call(move || V::sig_to_bytes(&V::sign(MA, &ob[o].1)));
+                    part.transitions += 1;
+                    part.validated += 1;
+                    let Ok(sig) = r else { continue };
+                    let salt = sig[1..41].to_vec();
+                    for (i, b) in salt.iter().enumerate() {
+                        byte_values[i].insert(*b);
+                    }
+                    let here = format!("{} '{}' (history {:?}, step {})", V::name(), objs[o].0, h, step);
+                    if let Some(prev) = seen.get(&salt) {
+                        ctx.violation(format!("salt-repeated:key-copy:{}", objs[o].0), format!("salt {} of {} was already used at {}", hex(&salt[..8]), here, prev), json!({"kind":"copies","variant":V::N}));
+                    } else {
+                        seen.insert(salt, here);
+                    }
+                }
+            }
+        }
+        run_copies::<V512>(&mut ctx, &mut part, &mut seen, &mut byte_values, 5, &workers);
+        run_copies::<V1024>(&mut ctx, &mut part, &mut seen, &mut byte_values, 5, &workers);
+        part.exhaustive = true;
+        part.outcome(format!("distinct salts overall {}", seen.len()));
+        ctx.add_part(part);
+    }
+
     // how much of the generator's output the salt depends on: flip each of the first 2048 generator bits in turn
     {
         const NBITS: usize = 2048;
